@@ -14,7 +14,7 @@ from . import models_rdflib as R
 from .errors import AnalysisError
 from .freeze import freeze
 from .interp import Interp
-from .values import ADict, AList, Atom, ExtMethod, ExtObj, GenObj, Msg, Obj, SStr, sstr
+from .values import ADict, AList, Atom, ExtMethod, ExtObj, GenObj, Msg, Obj, SStr, is_strlike, sstr
 
 XSD_STRING = K.XSD_STRING
 STREAM_FOR = {1: "TripleStream", 2: "QuadStream", 3: "GraphStream"}
@@ -254,9 +254,17 @@ def make_options(k: K.Kit, *, logical: int | None = None, delimited: bool = True
 
 def write_generic(k: K.Kit, physical: int, stmts: list[tuple], opts: Obj, *, via: str = "sink", namespaces: list | None = None) -> tuple[list, Obj]:
     it = k.it
+    if namespaces:
+        namespaces = [(p, k.new(K.GK, "IRI", ns) if is_strlike(ns) else ns) for p, ns in namespaces]
     enc = k.generic_encoder(k.attr(opts, "lookup_preset"))
     stream = k.stream(STREAM_FOR[physical], enc, opts)
     objs = [generic_statement(k, st) for st in stmts]
+    if via == "grouped2":
+        half = (len(objs) + 1) // 2
+        sinks = [k.g_sink(objs[:half], namespaces), k.g_sink(objs[half:], namespaces)]
+        frames = it.drain(k.call(k.get(K.GS, "grouped_stream_to_frames"), k.generator(sinks), opts))
+        streams = [e["obj"] for e in it.events if e["kind"] == "setattr" and e["attr"] == "flow" and isinstance(e.get("obj"), Obj)]
+        return frames, (streams[-1] if streams else stream)
     if via == "sink":
         data: Any = k.g_sink(objs, namespaces)
     else:
@@ -279,13 +287,19 @@ def rdflib_store_for(k: K.Kit, physical: int, stmts: list[tuple], namespaces: li
             ctx = store.attrs["default"] if st[3] == DEFAULT else R._get_context(it, store, gname)
             R._add_triple(it, ctx, tuple(build_rdflib(t) for t in st[:3]))
     for prefix, ns in namespaces or []:
-        R.method(it, ExtMethod(store, store.kind, "bind"), [prefix, ns], {})
+        R.method(it, ExtMethod(store, store.kind, "bind"), [prefix, R.uri(ns) if is_strlike(ns) else ns], {})
     return store
 
 
 def write_rdflib(k: K.Kit, physical: int, stmts: list[tuple], opts: Obj, *, via: str = "store", namespaces: list | None = None) -> tuple[list, Obj]:
     it = k.it
     stream = k.method(k.get(K.ST, STREAM_FOR[physical]), "for_rdflib", opts)
+    if via == "grouped2":
+        half = (len(stmts) + 1) // 2
+        stores = [rdflib_store_for(k, physical, stmts[:half], namespaces), rdflib_store_for(k, physical, stmts[half:], namespaces)]
+        frames = it.drain(k.call(k.get(K.RS, "grouped_stream_to_frames"), k.generator(stores), opts))
+        streams = [e["obj"] for e in it.events if e["kind"] == "setattr" and e["attr"] == "flow" and isinstance(e.get("obj"), Obj)]
+        return frames, (streams[-1] if streams else stream)
     if via == "store":
         data: Any = rdflib_store_for(k, physical, stmts, namespaces)
     else:
